@@ -353,7 +353,10 @@ def run_external(pid, suite, runner, tier, seed, replay=None, timeout=7200):
     rdir = os.path.join(CACHE, "run")
     os.makedirs(rdir, exist_ok=True)
     env = dict(ENV)
-    env.update({"OH_PY_TARGET": os.path.join(CACHE, "py-target"), "OH_HARNESS": HARNESS_BIN, "OH_DRIVER": DRIVER, "OH_REPO": REPO})
+    # one target directory per checkout: cargo would not re-link `libopening_hours.so` for a checkout
+    # whose fingerprint is fresh while the file on disk comes from another one
+    pyt = os.path.join(CACHE, "py-target") if REPO == "/repo" else os.path.join(CACHE, "shadow", hashlib.blake2b(REPO.encode(), digest_size=6).hexdigest(), "py-target")
+    env.update({"OH_PY_TARGET": pyt, "OH_HARNESS": HARNESS_BIN, "OH_DRIVER": DRIVER, "OH_REPO": REPO})
     cmd = [sys.executable, os.path.join(VERIF, runner), tier, str(seed), "--out", rdir]
     if replay:
         cmd += ["--replay", replay]
